@@ -153,3 +153,15 @@ Proof. repeat split; vm_compute; reflexivity. Qed.
     two-byte data push ac 00 is reported "pubkey" *)
 Example C14_pubkey_with_data_push : script_type (push_direct k33 ++ [x02; xac; x00]) = Ok TPubKey.
 Proof. vm_compute. reflexivity. Qed.
+
+(** State inventory (tie, translator part): every Go struct the model of this property represents has, in the
+    source as it is NOW (gen/Structs.v, regenerated on every run), exactly the fields - names, types, order - the
+    model was written against (model/StateInventory.v).  New state in these objects (a memoised digest, a cached
+    document, a remembered operand) is state the theorems above do not speak about: this is the obligation that
+    stops checking then. *)
+From GoBT Require gen.Structs model.StateInventory.
+Theorem C14_state_inventory :
+  forall k, In k (StateInventory.group_of "C14") ->
+  exists f, StateInventory.lookup_gen gen.Structs.structs k = Some f /\ StateInventory.lookup_model k = Some f.
+Proof. apply StateInventory.inventory_ok_spec. vm_compute. reflexivity. Qed.
+Print Assumptions C14_state_inventory.
